@@ -38,7 +38,7 @@ def run(ctx):
     wd = os.path.join(BUILD, "run-%s-conv-%d" % (ctx.pid, os.getpid()))
     shutil.rmtree(wd, ignore_errors=True)
     os.makedirs(wd)
-    n_cases = 1600 if quick else 40000
+    n_cases = 1000 if quick else 40000
     jpath = os.path.join(wd, "journal.txt")
     cmd = [h, "--seed", str(ctx.seed), "--first", "0", "--last", str(n_cases), "--batch", "100"]
     rc, _, err = ctx.run(cmd, stdout_path=jpath, timeout=3000)
@@ -58,7 +58,7 @@ def run(ctx):
         with open(cp, "w") as f:
             for c in chunks[idx]:
                 f.write("\n".join(c) + "\n")
-        rc2, out, err2 = ctx.run([drv, "--maxcols", "4", "--maxgens", "9"], stdin_path=cp, timeout=3000)
+        rc2, out, err2 = ctx.run([drv, "--maxcols", "4", "--maxgens", "7" if quick else "9"], stdin_path=cp, timeout=3000)
         if rc2 != 0:
             ctx.fatal("driver pplv_conv failed rc=%s %s" % (rc2, (err2 or "")[-500:]))
         return out
@@ -69,6 +69,7 @@ def run(ctx):
             verdicts += out.splitlines()
 
     kinds = collections.Counter()
+    mism = collections.Counter()
     hist = collections.defaultdict(collections.Counter)
     n_ok = n_bad = n_skip = n_k1 = n_k1_skip = 0
     distinct = set()
@@ -104,22 +105,33 @@ def run(ctx):
             n_bad += 1
             kind, cid = t[1], t[2]
             rest = v.split(" ", 3)[3] if len(t) > 3 else ""
-            model_part, _, prop_part = rest.partition(" | prop ")
-            prop_bad = not prop_part.startswith("ok")
             case = by_id.get(cid, [])
             site = "dd-engine:" + kind
             replay = {"history": case, "driver": "pplv_conv", "verdict": rest, "site": site, "harness_args": cmd[1:],
                       "replay_cmd": "harness c01_conv %s | pplv_conv  (case %s)" % (" ".join(cmd[1:]), cid)}
-            if prop_bad:
-                what = ("double-description engine: the real %s breaks a proved conclusion on its output: %s" % (kind, prop_part[:600]))
-                ctx.violation(what, replay, found_input=True, record={"site": site, "tags": [prop_part.split()[0] if prop_part else "prop"]})
+            if rest.startswith("crash"):
+                cat, found = "crash", True
+                what = "double-description engine: the real %s dies (%s) on a valid input" % (kind, rest)
             else:
-                what = ("double-description engine: the real %s differs from the code-shaped model (%s); the conclusions checked on "
-                        "the real output hold" % (kind, model_part[:600]))
-                ctx.violation(what, replay, found_input=False, record={"site": site, "tags": ["model-diff"]})
+                model_part, _, prop_part = rest.partition(" | prop ")
+                if model_part.startswith("model exception-in-the-real-call"):
+                    cat, found = "exception", True
+                    what = "double-description engine: the real %s throws on a valid input (the journal shows the exception class)" % kind
+                elif not prop_part.startswith("ok"):
+                    cat, found = (prop_part.split() or ["prop"])[0], True
+                    what = ("double-description engine: the real %s breaks a proved conclusion on its output: %s (%s)"
+                            % (kind, prop_part[:500], model_part[:200]))
+                else:
+                    cat, found = "model-diff", False
+                    what = ("double-description engine: the real %s differs from the code-shaped model (%s); the conclusions "
+                            "checked on the real output hold" % (kind, model_part[:600]))
+            mism[(kind, cat)] += 1
+            if mism[(kind, cat)] <= 2:          # two replays per (function, kind of failure); the rest is counted
+                ctx.violation(what, replay, found_input=found, record={"site": site, "tags": [cat]})
     ctx.cov["dd_engine"] = {
         "cases": len(cases), "calls_judged": n_ok + n_bad, "calls_identical_to_model": n_ok, "calls_mismatch": n_bad,
-        "calls_skipped": n_skip, "calls_per_kind": dict(kinds), "k1_certified": n_k1, "k1_skipped_too_large": n_k1_skip,
+        "calls_skipped": n_skip, "calls_per_kind": dict(kinds),
+        "mismatches_by_function_and_kind": {"%s:%s" % k: v for k, v in sorted(mism.items())}, "k1_certified": n_k1, "k1_skipped_too_large": n_k1_skip,
         "harness_crashes_or_setup_exceptions": crashes,
         "distinct_conversion_inputs": len(distinct),
         "histograms": {k: dict(sorted(v.items(), key=lambda kv: (len(kv[0]), kv[0]))) for k, v in sorted(hist.items())},
@@ -128,7 +140,7 @@ def run(ctx):
                 "C and NNC, dimension 0..4, <= 8 random rows + low-level rows; shapes: duplicates, boxes with redundant bounds, "
                 "paired inequalities, empty, universe, sums of rows, opposite rays) is replayed on the model: identical rows, order, "
                 "returned value, saturation bits; distinct = hash of the conversion input; K1 checks (checkDD / equivB on the "
-                "homogeneous cones) for <= 4 columns and <= 9 rows",
+                "homogeneous cones) for <= 4 columns and <= 7 rows (9 in the thorough tier)",
     }
     ctx.assumptions += [
         "double-description engine: conversion / simplify / minimize / add_and_minimize are modelled row for row (PPLV/Conv); NOT modelled: "
